@@ -324,6 +324,58 @@ pub fn corrupt(rng: &mut Rng, f: Fault, x: Input) -> Input {
     }
 }
 
+/// Deterministic (PRNG-free) corruption used inside generated streams: variant selects the fields.
+pub fn corrupt_fixed(f: Fault, x: Input, variant: u64) -> Input {
+    let val = match f {
+        Fault::Nan => Some(f64::NAN),
+        Fault::PosInf => Some(f64::INFINITY),
+        Fault::NegInf => Some(f64::NEG_INFINITY),
+        Fault::PosMax => Some(f64::MAX),
+        Fault::NegMax => Some(f64::MIN),
+        Fault::MinPos => Some(f64::MIN_POSITIVE),
+        Fault::Subnormal => Some(f64::from_bits(1 + variant % 1000)),
+        Fault::NegZero => Some(-0.0),
+        Fault::Zero => Some(0.0),
+        Fault::Huge => Some(if variant % 2 == 0 { 1e300 } else { -1e300 }),
+        _ => None,
+    };
+    match (val, f) {
+        (Some(v), _) => match variant % 3 {
+            0 => Input { o: v, h: v, l: v, c: v, v: x.v },
+            1 => Input { o: v, h: v, l: v, c: v, v },
+            _ => Input { h: v, c: v, ..x },
+        },
+        (None, Fault::Negative) => Input { o: -x.o, h: -x.h, l: -x.l, c: -x.c, v: x.v },
+        (None, Fault::InvertedBar) => Input { h: x.l * 0.9, l: x.h * 1.1, ..x },
+        (None, Fault::CloseOutside) => Input { c: x.h * 1.5, ..x },
+        (None, Fault::NegVolume) => Input { v: -x.v - 1.0, ..x },
+        (None, Fault::ZeroVolume) => Input { v: 0.0, ..x },
+        (None, Fault::Spike10) => Input { h: x.h * 10.0, c: x.c * 10.0, ..x },
+        (None, Fault::Spike1e3) => Input { h: x.h * 1e3, c: x.c * 1e3, ..x },
+        (None, Fault::Spike1e6) => Input { h: x.h * 1e6, c: x.c * 1e6, ..x },
+        _ => x,
+    }
+}
+
+/// Expansion of an `Op::Gen`: calls `f(tick, fault, reset_before)` for each of the `len` ticks.
+pub fn expand_gen(g: &StreamDesc, skip: u64, len: u64, fault: Option<Fault>, every: u64, reset_every: u64, mut f: impl FnMut(&Input, Fault, bool) -> bool) {
+    let mut w = World::from_desc(g);
+    for _ in 0..skip {
+        let _ = w.clean();
+    }
+    for j in 0..len {
+        let x = w.clean();
+        let reset = reset_every > 0 && j > 0 && j % reset_every == 0;
+        let (x, fk) = match fault {
+            Some(fk) if every > 0 && j % every == every - 1 => (corrupt_fixed(fk, x, j / every), fk),
+            _ => (x, Fault::Clean),
+        };
+        if !f(&x, fk, reset) {
+            return;
+        }
+    }
+}
+
 /// Which fault kinds are switched on for this run and at what rate (swarm testing).
 #[derive(Clone, Debug)]
 pub struct FaultPlan {
